@@ -364,14 +364,14 @@ def joinOr (sep : String) (xs : List String) : String := if xs.isEmpty then "-" 
 
 def showVocab (ix : EIndex) : String :=
   joinOr "," ((List.range ix.vocab.length).map (fun i =>
-    (if i ∈ ix.tomb then "x" else "") ++ showName (ix.vocab.getD i [])))
+    if i ∈ ix.tomb then "x" else showName (ix.vocab.getD i [])))
 
 def showRouter (r : Router) : String :=
-  s!"idx={showVocab r.index};live={r.index.live};dim={r.emb.dim};emb=" ++
-  joinOr "/" (r.emb.ents.map (fun e => s!"{e.1}:{showNats e.2}")) ++ ";md=" ++
-  joinOr "&" (r.md.map (fun p => showName p.1 ++ "~" ++ showTData p.2)) ++ s!";cache={r.cache.cap}:" ++
+  s!"idx={showVocab r.index}#live={r.index.live}#dim={r.emb.dim}#emb=" ++
+  joinOr "/" (r.emb.ents.map (fun e => s!"{e.1}:{showNats e.2}")) ++ "#md=" ++
+  joinOr "&" (r.md.map (fun p => showName p.1 ++ "~" ++ showTData p.2)) ++ s!"#cache={r.cache.cap}:" ++
   joinOr "&" ((occupied r.cache.slots).map (fun e => showName e.key ++ "~" ++ showTData e.val)) ++
-  s!";len={r.len};count={r.entryCount}"
+  s!"#len={r.len}#count={r.entryCount}"
 
 def showPairs (xs : List (Nat × Nat)) : String := joinOr "," (xs.map (fun p => s!"{p.1}:{p.2}"))
 
@@ -446,6 +446,7 @@ def storeStep (st : DState) (ws : List String) : Option (DState × String) :=
       let sn := st.r0.snapshot (fun _ => ttok)
       some ({ st with r0 := sn.1, r1 := Router.restore id st.cfg.fx sn.2 }, s!"ok {st.r0.entryCount}")
     | none => none
+  | ["rt_adopt"] => some ({ st with r0 := st.r1 }, "ok")
   | ["rt_rfb", ttok] =>
     -- register 1 := restore_from_bytes(to_bytes(register 0)) applied to register 1
     match parseBool ttok with
@@ -515,6 +516,21 @@ def storeStep (st : DState) (ws : List String) : Option (DState × String) :=
   | ["b_mark", r, hash] =>
     match getReg st r, hash.toNat? with
     | some x, some h => some (setReg st r { x with blobs := x.blobs.markGarbage h }, "ok")
+    | _, _ => none
+  | ["g_dump", r, nodes, ids] =>
+    match getReg st r, parseNats nodes, parseNats ids with
+    | some x, some nodes, some ids =>
+      let g := x.graph
+      some (st, "out=" ++ joinOr "|" (nodes.map (fun n => s!"{n}>{showPairs (g.outgoing n)}")) ++
+        "#in=" ++ joinOr "|" (nodes.map (fun n => s!"{n}<{showPairs (g.incomingOf n)}")) ++
+        "#data=" ++ joinOr "&" (ids.map (fun i => s!"{i}~{showOptData (g.getEdgeData i)}")) ++
+        "#" ++ showGraphInfo g)
+    | _, _, _ => none
+  | ["b_dump", r, hashes] =>
+    match getReg st r, parseNats hashes with
+    | some x, some hs =>
+      some (st, joinOr "," (hs.map (fun h => s!"{h}:{match x.blobs.get h with | some d => hex d | none => "none"}:{if x.blobs.contains h then 1 else 0}")) ++
+        "#" ++ showBlobInfo x.blobs)
     | _, _ => none
   | ["b_info", r] =>
     match getReg st r with
